@@ -380,20 +380,29 @@ def _minimal_cases():
     return out
 
 
+# sweep-file index -> (offset of the first image line, bytes per line) for the raw full-size files
+LINE_BYTES = {11: (18, 80), 12: (51, 160), 13: (16, 160), 14: (5, 32)}
+
+
 def c19_tail_chunk(arg):
     """Enumeration for the quick tier: every sweep file cut 1, 2, 3, 16, 256 and 4000 bytes
     before its end (a download that stopped just short), by file and by pipe."""
-    ci = arg
+    ci, part, nparts = arg
     warm()
     case = minimal_cases()[ci]
     recs = []
     n = len(case.data)
-    for back in (1, 2, 3, 16, 256, 4000):
-        k = n - back
-        if k < 0:
-            continue
+    cuts = [(n - back) for back in (1, 2, 3, 16, 256, 4000) if n - back >= 0]
+    envs = (Env(), Env("dash", "dash", "small", "small", n, n))
+    line = LINE_BYTES.get(ci)
+    if line:
+        # the full-size raw files: also every line start (a copy that stopped at a row end)
+        start, step = line
+        cuts = sorted(set(cuts + list(range(start, n + 1, step))))
+        envs = (Env(),)
+    for k in cuts[part::nparts]:
         plan = [{"kind": "truncate", "at": k}]
-        for env in (Env(), Env("dash", "dash", "small", "small", k, k)):
+        for env in envs:
             if not env_valid(case.tool, env):
                 continue
             data, dmg, eff, run, verdict, cls = c19_execute(case, plan, env)
